@@ -265,6 +265,7 @@ var cs = &caseState{cols: map[int]*apientry.APICollection{}}
 var regNames = []string{"c13-r0", "c13-r1", "c13-r2", "c13-r3"}
 
 func resetCase() {
+	resetRace()
 	cs = &caseState{cols: map[int]*apientry.APICollection{}}
 	for _, n := range regNames {
 		c := registry.Registry.AddCollection(n)
@@ -479,6 +480,8 @@ func exec(op string) string {
 			return "bad-op"
 		}
 		return isValid(m)
+	case "regrace":
+		return hx.Guard(func() string { return execRace(hx.KVInt(ws, "col"), hx.KVInt(ws, "n")) })
 	case "newcol":
 		k := hx.KVInt(ws, "col")
 		var c *apientry.APICollection
@@ -650,6 +653,7 @@ type genEntry struct {
 }
 
 type gen struct {
+	raceBase int // first collection index bound by a regrace op in this case (-1: none)
 	aimed   bool // the current op is meant to reach its handler: no random deviations
 	h       *hx.T
 	run     func(op string)
@@ -710,6 +714,25 @@ func (g *gen) caseSetup() {
 	ne := 1 + h.R.Intn(4)
 	var planned []genEntry
 	used := map[string]bool{}
+	// registry race: 2-4 goroutines add the same fresh name inside the forced window; each handle gets an entry of its own
+	g.raceBase = -1
+	if raceCounter < hx.EnvInt("VERIF_RACES", 400) && h.R.Intn(5) == 0 {
+		n := 2 + h.R.Intn(3)
+		g.raceBase = g.ncols
+		g.run(fmt.Sprintf("regrace col=%d n=%d", g.ncols, n))
+		h.Count(fmt.Sprintf("race.goroutines%d", n))
+		for i := 0; i < n; i++ {
+			z := g.pickZoo()
+			planned = append(planned, genEntry{z: z, ptr: z.ptrOK, group: fmt.Sprintf("race%d", i), nf: nfPool[h.R.Intn(len(nfPool))], col: g.ncols + i})
+			if !used[z.name] {
+				used[z.name] = true
+				for _, l := range methLines(z) {
+					g.run(l)
+				}
+			}
+		}
+		g.ncols += n
+	}
 	for i := 0; i < ne; i++ {
 		z := g.pickZoo()
 		ptr := z.ptrOK
@@ -780,6 +803,9 @@ func (g *gen) buildAll(reg bool) {
 		via := "col"
 		if reg && g.h.R.Intn(2) == 0 {
 			via = "reg"
+		}
+		if g.raceBase >= 0 && k >= g.raceBase {
+			via = "reg" // handles obtained from the registry are built by the registry
 		}
 		g.run(fmt.Sprintf("build col=%d via=%s", k, via))
 	}
